@@ -281,12 +281,20 @@ def run(ctx):
     search_mixed(ctx)      # force limit with mixed sizes positioned out of topology order
     search_floor(ctx)      # engine-level probe of the 0.1 nm floor / force limit (graph neighbours included); cheap, always run
     cases = [c for _, c in core.corpus_cases('C05')]
+    # branched molecules with residues of different size (the parent in the search tree is not the predecessor in build order)
+    for _ in range(ctx.n(3, 20)):
+        c = gen_system(ctx.rng)
+        c.pop('ligands', None)
+        c['moltypes'] = [systems.gen_moltype(ctx.rng, 'MA', nres=ctx.rng.randint(5, 8), shape='tree', multi_atom=True)]
+        c['molecules'] = [('MA', ctx.rng.randint(1, 2))]
+        c['branched'] = True
+        cases.append(c)
     cases += [gen_crowded(ctx.rng) for _ in range(ctx.n(2, 16))]
     cases += [gen_system(ctx.rng) for _ in range(ctx.n(14, 150))]
     nplace = 0
     timeouts = 0
     if ctx.broken:
-        cases = cases[:6]
+        cases = cases[:14]
     for case in cases:
         if timeouts >= 2:
             ctx.note("two generated systems did not finish within the time limit; remaining runs skipped")
@@ -300,6 +308,8 @@ def run(ctx):
             ctx.feature('runs_with_ligands_on_individual_copies')
         if case.get('crowded'):
             ctx.feature('crowded_runs_with_long_steps')
+        if case.get('branched'):
+            ctx.feature('branched_molecules_with_mixed_residue_sizes')
         ctx.feature('placements', len(rec['placements']))
         ctx.feature('placements_with_neighbours', sum(1 for p in rec['placements'] if p.get('near')))
         if not rec['ok']:
